@@ -730,6 +730,10 @@ class SocketClient:
                 if t.done():
                     if t.exception():
                         raise t.exception()
+                    if not tasks.empty():
+                        # The enqueuing thread put its last items and finished
+                        # after the `get` above had timed out; go take them.
+                        continue
                     if not self._to_shutdown.is_set():
                         raise ValueError(
                             f'expecting `self._to_shutdown.is_set()` to be True but got: {self._to_shutdown.is_set()}'
